@@ -42,10 +42,55 @@ def gen_cases(rng, tier):
                     cases.append({'id': 'c06-sess-%d' % i, 'cfg': cfg, 'hist': toks, 'sub': 'lsim',
                                   'tags': {'variant': variant, 'T': T, 'red': red, 'mode': 'sessions'}})
                     i += 1
+    # the statement itself on structured sessions: tap the one-shot key, then two plain keys one after the other (gaps above the
+    # rapid-event-delay), or let the one-shot expire first
+    j = 0
+    for variant in ['one-shot', 'one-shot-press', 'one-shot-release', 'one-shot-press-pcancel', 'one-shot-release-pcancel']:
+        for T in (50, 200):
+            for _ in range(4 if tier == 'quick' else 60):
+                kind = rng.choice(['next-key', 'next-key', 'expire'])
+                cfg = '(defsrc a s d f g)\n(deflayer l0 (%s %d lsft) b c x y)' % (variant, T)
+                h = ['t5', 'p0,30', 't%d' % rng.randint(1, 4), 'r0,30']
+                if kind == 'expire':
+                    h += ['t%d' % (T + rng.choice([8, 40]))]
+                else:
+                    h += ['t%d' % rng.randint(8, T - 20)]
+                h += ['p0,33', 't%d' % rng.randint(8, 15), 'r0,33', 't%d' % rng.randint(8, 15), 'p0,34', 't%d' % rng.randint(8, 15), 'r0,34', 't%d' % (T + 60)]
+                cases.append({'id': 'c06-spec-%d' % j, 'cfg': cfg, 'hist': h, 'sub': 'lsim', 'spec': kind,
+                              'tags': {'variant': variant, 'T': T, 'mode': 'statement-' + kind}})
+                j += 1
     return cases
 
 
+def oracle(c, it):
+    if 'spec' not in c or not it or it[0].startswith('PARSE-') or any(l.startswith(('PANIC', 'ABORT', 'HANG')) for l in it):
+        return None
+    prev = set()
+    at = {}
+    last = set()
+    for l in it:
+        if l.startswith('@') and ' K' in l:
+            cur = set(int(x) for x in l.split(' K', 1)[1].split(' C ')[0].split())
+            for k in (45, 21):
+                if k in cur and k not in prev and k not in at:
+                    at[k] = cur
+            prev = cur
+            last = cur
+    if 45 not in at or 21 not in at:
+        return 'the plain keys pressed after the one-shot did not both come out: %s' % sorted(at)
+    if c['spec'] == 'next-key' and 42 not in at[45]:
+        return 'the key pressed right after the one-shot was not modified (keys down with it: %s)' % sorted(at[45])
+    if c['spec'] == 'expire' and 42 in at[45]:
+        return 'the one-shot had expired, yet the next key was modified'
+    if 42 in at[21]:
+        return 'the second key after the one-shot was still modified (keys down with it: %s)' % sorted(at[21])
+    if last:
+        return 'keys left down at the end: %s' % sorted(last)
+    return None
+
+
 SPEC = {
+    'oracle': oracle,
     'id': 'C06', 'sub': 'lsim', 'gen_cases': gen_cases, 'nontrivial': trace_has_output,
     'rule': 'random C06-profile configs (all five one-shot variants, key / output chord / layer-while-held inner, 1-3 one-shot keys plus plain keys, rapid-event-delay {default,1,20}) x consistent histories with gaps {0,1,T-1,T,T+1}; plus >16 stacked one-shots' + '; non-trivial = distinct (config, trace) with output',
     'explanation': 'theorems: expiry exactly at T for every T (induction), end clears everything, press/release variant end conditions, deferred own release, pcancel, inactive one-shot is inert',
